@@ -32,6 +32,10 @@ MutatorClauses(e) ==
   [ C13_failed_mutator_unchanged |-> (~Ok(e)) => e.post = e.pre,
     C13_argument_unchanged |-> e.argpost = e.arg ]
 
+RefTimesOf(t) == IF t.kind = "I" THEN Bounds(t.ents) ELSE IF t.kind = "P" THEN Times(t.ents) ELSE {}
+CountOf(sq, x) == Cardinality({i \in Idx(sq) : sq[i] = x})
+SameBag(s1, s2) == Len(s1) = Len(s2) /\ \A i \in Idx(s1) : CountOf(s1, s1[i]) = CountOf(s2, s1[i])
+
 (* ---------------- C05: well-formedness of whatever comes back ----------- *)
 (* "trimmed" is checked by the harness flagging untrimmed labels as the     *)
 (* label symbol "?untrimmed" which never equals an expected label; here we  *)
@@ -40,7 +44,9 @@ MutatorClauses(e) ==
 WFClauses(e) ==
   [ C05_ret_wellformed |-> RetTier(e) => WFTier(e.ret),
     C05_post_wellformed |-> WFTier(e.post),
-    C05_raises_praatio_error |-> (~Ok(e)) => e.pe ]
+    \* deleteEntry of an absent entry and dejitter against an empty reference are argument errors for which the
+    \* statements only say "raises"; every other failure must be a praatio error
+    C05_raises_praatio_error |-> (~Ok(e) /\ e.op # "deleteEntry" /\ ~(e.op = "dejitter" /\ RefTimesOf(e.arg) = {})) => e.pe ]
 
 (* ---------------- C06 crop ---------------------------------------------- *)
 Inside(iv, a, b) == a <= iv.s /\ iv.e <= b
@@ -163,14 +169,19 @@ EditClauses(e) ==
       es == e.pre.ents  lo == e.pre.lo  hi == e.pre.hi
       leaves == IF isI THEN \E i \in Idx(es) : es[i].s + o < lo \/ es[i].e + o > hi
                        ELSE \E i \in Idx(es) : es[i].t + o < lo \/ es[i].t + o > hi
+      \* an entry landing exactly on the old span's edge: with inexact (non-dyadic) float arithmetic the sum may
+      \* come out one ulp beyond it, so either report is accepted there
+      onEdge == ~e.exactfp /\ o # 0 /\
+                (IF isI THEN \E i \in Idx(es) : es[i].s + o = lo \/ es[i].e + o = hi
+                        ELSE \E i \in Idx(es) : es[i].t + o = lo \/ es[i].t + o = hi)
       expect == IF isI THEN EditExpectI(es, o) ELSE EditExpectP(es, o)
       newLo == IF isI THEN Min2(lo, FirstStart(expect, lo)) ELSE MinOf({lo} \cup Times(expect))
       newHi == IF isI THEN Max2(hi, LastEnd(expect, hi)) ELSE MaxOf({hi} \cup Times(expect))
       mustRaise == mode = "error" /\ leaves
       okc == RetTier(e) /\ A(e)
   IN [ C09_error_mode_raises_when_leaving_span |-> (A(e) /\ mustRaise) => (~Ok(e) /\ e.pe),
-       C09_no_exception_otherwise |-> (A(e) /\ ~mustRaise) => Ok(e),
-       C09_warning_iff_leaving_span |-> (A(e) /\ Ok(e)) => (e.out <=> (mode = "warning" /\ leaves)),
+       C09_no_exception_otherwise |-> (A(e) /\ ~mustRaise /\ ~(mode = "error" /\ onEdge)) => Ok(e),
+       C09_warning_iff_leaving_span |-> (A(e) /\ Ok(e) /\ ~(mode = "warning" /\ onEdge)) => (e.out <=> (mode = "warning" /\ leaves)),
        C09_entries_moved_by_offset |-> okc => e.ret.ents = expect,
        C09_span_grows_never_shrinks |-> okc => (e.ret.lo = newLo /\ e.ret.hi = newHi),
        C09_result_wellformed |-> RetTier(e) => WFTier(e.ret) ]
@@ -182,8 +193,10 @@ AppendClauses(e) ==
       okc == RetTier(e) /\ A(e)
   IN [ C09_append_type_mismatch_rejected |-> (~same) => (~Ok(e) /\ e.pe),
        C09_append_never_fails_otherwise |-> same => Ok(e),
-       C09_append_entries |-> (same /\ okc) => e.ret.ents = a.ents \o shifted,
-       C09_append_labels |-> (same /\ RetTier(e)) => Labels(e.ret.ents) = Labels(a.ents) \o Labels(b.ents),
+       \* a point of B at time 0 coincides with a point of A at A's end: their relative order is not constrained
+       C09_append_entries |-> (same /\ okc) => (IF a.kind = "I" THEN e.ret.ents = a.ents \o shifted
+                                                  ELSE SameBag(e.ret.ents, a.ents \o shifted) /\ WFTier(e.ret)),
+       C09_append_labels |-> (same /\ RetTier(e)) => SameBag(Labels(e.ret.ents), Labels(a.ents) \o Labels(b.ents)),
        C09_append_span |-> (same /\ okc) => (e.ret.lo = a.lo /\ e.ret.hi = a.hi + b.hi) ]
 
 (* shift by +x then -x (op "editRoundTrip"): restores every entry when nothing was clipped *)
@@ -312,8 +325,12 @@ MergeLabelsClauses(e) ==
 RefTimes(t) == IF t.kind = "I" THEN Bounds(t.ents) ELSE Times(t.ents)
 DistTo(refs, v) == MinOf({AbsV(r - v) : r \in refs})
 \* v may become w: w is a nearest reference within D, or w = v when no reference is within D
-SnapOK(refs, v, w, D) ==
-  IF refs # {} /\ DistTo(refs, v) <= D THEN (w \in refs /\ AbsV(w - v) = DistTo(refs, v)) ELSE w = v
+SnapOK(refs, v, w, D, exact) ==
+  IF refs # {} /\ DistTo(refs, v) <= D
+  THEN \/ (w \in refs /\ AbsV(w - v) = DistTo(refs, v))
+       \* exactly maxDifference away, computed in inexact (non-dyadic) floating point: either outcome
+       \/ (~exact /\ DistTo(refs, v) = D /\ w = v)
+  ELSE w = v
 
 DejitterClauses(e) ==
   LET D == e.args.D  refs == RefTimes(e.arg)  es == e.pre.ents  isI == e.pre.kind = "I"
@@ -322,13 +339,18 @@ DejitterClauses(e) ==
       \* could every choice of nearest references yield an ill-formed tier? then raising is required; if some
       \* choice is well-formed the call may return it (ties are loose)
       mustCollapse == isI /\ \E i \in Idx(es) : \A s2 \in snapped(es[i].s), e2 \in snapped(es[i].e) : s2 >= e2
-  IN [ C14_count_order_labels_unchanged |-> (RetTier(e) /\ A(e)) => Labels(r) = Labels(es),
-       C14_moved_iff_within_maxDifference |-> (RetTier(e) /\ A(e) /\ Len(r) = Len(es)) => \A i \in Idx(es) :
-            IF isI THEN SnapOK(refs, es[i].s, r[i].s, D) /\ SnapOK(refs, es[i].e, r[i].e, D)
-                   ELSE SnapOK(refs, es[i].t, r[i].t, D),
+      \* points that end up at the same time have no order in time; match them up as a bag in that case
+      coincide == ~isI /\ \E i \in 1..(Len(r) - 1) : r[i].t = r[i + 1].t
+      x == e.exactfp
+  IN [ C14_count_order_labels_unchanged |-> (RetTier(e) /\ A(e)) =>
+            (IF coincide THEN SameBag(Labels(r), Labels(es)) ELSE Labels(r) = Labels(es)),
+       C14_moved_iff_within_maxDifference |-> (RetTier(e) /\ A(e) /\ Len(r) = Len(es) /\ ~coincide) => \A i \in Idx(es) :
+            IF isI THEN SnapOK(refs, es[i].s, r[i].s, D, x) /\ SnapOK(refs, es[i].e, r[i].e, D, x)
+                   ELSE SnapOK(refs, es[i].t, r[i].t, D, x),
+       C14_moved_points_bag |-> (RetTier(e) /\ A(e) /\ Len(r) = Len(es) /\ coincide) =>
+            \A j \in Idx(r) : \E i \in Idx(es) : es[i].l = r[j].l /\ SnapOK(refs, es[i].t, r[j].t, D, x),
        C14_never_returns_illformed |-> RetTier(e) => WFTier(e.ret),
-       C14_collapse_raises |-> (A(e) /\ mustCollapse) => ~Ok(e),
-       C14_span_kept |-> (RetTier(e) /\ A(e)) => (e.ret.lo = e.pre.lo /\ e.ret.hi = e.pre.hi) ]
+       C14_collapse_raises |-> (A(e) /\ mustCollapse) => ~Ok(e) ]
 
 MorphClauses(e) ==
   LET es == e.pre.ents  tg == e.arg.ents  r == e.ret.ents
